@@ -33,10 +33,11 @@ func init() {
 		Level: "fault_enumeration",
 		Rule: "part (A) store handlers with restart injection: per corpus (group values with '|', quotes, unicode; negative/fractional numbers) laid out over 2..6 fractions, a dry run counts the durable writes of one asynchronous search (request info, one partial result per fraction, final info); " +
 			"then, each from a pristine copy in fresh processes: crash after the k-th durable write for every k (and before the request is marked done), restart, poll until done, compare IDs/histogram/aggregation summaries with the synchronous search of the restarted store and IDs with the model; " +
+			"late-fraction scenarios: the worker is frozen after its k-th durable write, the store seals, ingests, seals and ingests again (documents in a fraction created after the start), crashes, restarts: the resumed result must equal the synchronous search taken right before the start and contain no document of the later fraction; " +
 			"part (B) the proxy library (1..3 shards) and the proxy's public handlers (StartAsyncSearch/FetchAsyncSearchResult vs ComplexSearch) on the same kind of cases without restarts. " +
 			"case = one (corpus, request, k) or one (surface, request); non-trivial = the result is non-empty and, for (A), the crash point was reached; distinct = (surface, k, fractions, request class)",
 		Assumptions: []string{
-			"no ingestion between start and finish (the statement fixes the fraction set)",
+			"documents ingested after the start into a fraction that already existed at the start (the then-empty active fraction) may or may not be part of the result: tolerated, and then only IDs are judged; documents of fractions created later must be absent",
 			"a crash before the start call returned may lose the request (not acknowledged): such cases are tallied, not judged",
 			"rendered aggregation buckets are compared only for aggregations without a time interval (the asynchronous path does not carry the interval to the proxy)",
 		},
@@ -252,6 +253,103 @@ func runC19(w *h.W, batch int) {
 			}
 		}
 		plan = append(plan, inj{"async.before_done", 1}, inj{"async.done", 1})
+		// ---- fractions created after the start are not part of the search: the worker is frozen after k persisted writes, the
+		// store seals everything, ingests bulk A (lands in the active fraction that may have existed at the start: tolerated in
+		// the result), seals, ingests bulk B (lands in a fraction that certainly did not exist at the start), crashes; after the
+		// restart the resumed search must not contain any document of bulk B and must contain every expected one.
+		lateA := gen.MakeCorpus(qr, gen.CorpusOpt{N: qr.Range(1, 6), Vocab: 3, MIDSpread: max(int(corp.MaxMID-corp.MinMID), 1), BaseMID: corp.MinMID, MaxToks: 1, Agg: true, Groups: 3, Tag: fmt.Sprintf("la%d-%d", batch, qi)})
+		lateB := gen.MakeCorpus(qr, gen.CorpusOpt{N: qr.Range(5, 40), Vocab: 3, MIDSpread: max(int(corp.MaxMID-corp.MinMID), 1), BaseMID: corp.MinMID, MaxToks: 1, Agg: true, Groups: 3, Tag: fmt.Sprintf("lb%d-%d", batch, qi)})
+		// IDs are unique over everything ingested (the generator has a few fixed edge IDs that every corpus may contain)
+		taken := map[model.ID]bool{}
+		for _, d := range corp.Docs {
+			taken[d.ID] = true
+		}
+		fresh := func(docs []*model.Doc) []*model.Doc {
+			var out []*model.Doc
+			for _, d := range docs {
+				if !taken[d.ID] {
+					taken[d.ID] = true
+					out = append(out, d)
+				}
+			}
+			return out
+		}
+		lateA.Docs, lateB.Docs = fresh(lateA.Docs), fresh(lateB.Docs)
+		if len(lateA.Docs) == 0 || len(lateB.Docs) == 0 {
+			continue
+		}
+		writeBulkFile(work, 1000, lateA.Docs)
+		writeBulkFile(work, 1001, lateB.Docs)
+		inA, inB := map[model.ID]bool{}, map[model.ID]bool{}
+		for _, d := range lateA.Docs {
+			inA[d.ID] = true
+		}
+		for _, d := range lateB.Docs {
+			inB[d.ID] = true
+		}
+		for k := int64(2); k <= hits["async.file.durable"]; k++ {
+			if w.Quick() && k > 2 && k < hits["async.file.durable"] && !qr.Chance(1, 2) {
+				continue
+			}
+			desc := map[string]any{"config": cfg, "request": ar, "surface": "store", "restart": fmt.Sprintf("worker frozen at async.file.durable#%d of %d, seal, bulk A, seal, bulk B, crash", k, hits["async.file.durable"])}
+			if !w.Begin(desc) {
+				continue
+			}
+			copyDir(pristine, scratch)
+			res1, evs1, _ := run("hold", scratch, phaseSpec{Steps: []phaseStep{{Op: "seal"}, {Op: "sync_search", Arg: string(arg)}, {Op: "async_start", Arg: string(arg)}, {Op: "wait_hold"},
+				{Op: "seal"}, {Op: "bulk", Bulk: 1000}, {Op: "seal"}, {Op: "bulk", Bulk: 1001}, {Op: "crash"}}, HoldPoint: "async.file.durable", HoldAt: k})
+			held, ackB := false, false
+			for _, e := range evs1 {
+				if e.Ev == "held" {
+					held = true
+				}
+				if e.Ev == "ack" && e.Bulk == 1001 {
+					ackB = true
+				}
+			}
+			sd, okS := getDigest(evs1, "sync-result")
+			res2, evs2, _ := run("resume", scratch, phaseSpec{Steps: []phaseStep{{Op: "async_wait", Arg: string(arg)}}})
+			w.Count("restarts_injected", 1)
+			ad, okA := getDigest(evs2, "async-result")
+			switch {
+			case !held || !ackB || res1.ExitCode != 77 || !okS:
+				w.Inconclusive(fmt.Sprintf("scenario not established: held=%v ackB=%v exit=%d", held, ackB, res1.ExitCode))
+			case !okA || ad.Err != "":
+				w.Violation("C19:not-resumed:"+h.CrashFrame(res2.Stderr), map[string]any{"diff": "the acknowledged asynchronous search did not finish after the restart: " + ad.Err, "case": desc, "exit": res2.ExitCode, "stderr": res2.Stderr[:min(len(res2.Stderr), 1500)]})
+			default:
+				bad := ""
+				got := map[model.ID]bool{}
+				extraA := 0
+				for _, id := range ad.IDs {
+					got[id] = true
+					switch {
+					case inB[id]:
+						bad = fmt.Sprintf("the result contains %s, a document of a fraction created after the search was started", id)
+					case inA[id]:
+						extraA++
+					}
+				}
+				for _, id := range exp.IDs {
+					if bad == "" && !got[id] {
+						bad = fmt.Sprintf("the result misses %s, which a synchronous search at the start returned", id)
+					}
+				}
+				if bad == "" && len(ad.IDs) != len(exp.IDs)+extraA {
+					bad = fmt.Sprintf("the result has %d ids, expected %d (+%d tolerated)", len(ad.IDs), len(exp.IDs), extraA)
+				}
+				if bad == "" && extraA == 0 {
+					if s := cmpDigest(ad, sd); s != "" {
+						bad = "differs from the synchronous search taken right before the start: " + s
+					}
+				}
+				if bad != "" {
+					w.Violation("C19:wrong-result:late-fraction", map[string]any{"diff": bad, "case": desc})
+				} else {
+					w.Count("late_fraction_scenarios", 1)
+					w.Held(fmt.Sprintf("store|late|k%d|f%d|a%d|h%v", k, len(groups), len(ar.Aggs), ar.Interval > 0), len(exp.IDs) > 0)
+				}
+			}
+		}
 		for _, in := range plan {
 			desc := map[string]any{"config": cfg, "request": ar, "surface": "store", "restart": fmt.Sprintf("crash at %s#%d of %d", in.point, in.k, hits[in.point])}
 			if !w.Begin(desc) {
